@@ -110,119 +110,134 @@ def r1_alphabet(R) -> None:
 
 def r2_policy_table(R, sh: SolverShape) -> None:
     cur, prev = value_roles(sh)
-    nf_cur = [n for n in sh.tests() if sh.in_loop(n) and nonfinite_test(n.ast) == cur]
+    nf_cur = [n for n in sh.tests() if sh.in_loop(n) and nonfinite_test(sh.expand(n.id, n.ast, stop=(cur, prev))) == cur]
     if not R.require(sh.q, len(nf_cur), f'test for non-finite values in `{cur}` after each pass', fi=sh.fi, pred=pred_call_attr('isfinite')):
         return
     nf = nf_cur[0]
     conv, _ = sh.convergence_node()
-    # mode tests inside the branch
-    mode_tests: Dict[str, object] = {}
-    for n in sh.tests():
-        if (nf.id, 'T') not in sh.guards_of(n.id):
-            continue
-        se = str_eq_test(n.ast)
-        if se and se[0] == 'errors' and se[2]:
-            mode_tests[se[1]] = n
-    for m in ('raise', 'skip', 'ignore', 'replace'):
-        if m not in mode_tests:
-            R.violation(sh.q, f'policy-row-missing:{m}', f"no `errors == '{m}'` row in the non-finite branch", where=sh.where(nf))
-    extra = set(mode_tests) - {'raise', 'skip', 'ignore', 'replace'}
-    for m in sorted(extra):
-        R.violation(sh.q, f'policy-row-extra:{m}', f"unexpected `errors == '{m}'` row in the non-finite branch",
-                    where=sh.where(mode_tests[m]))
+    # The policy table is decided path-sensitively: the exploration is split by the value of `errors`
+    # (raise / skip / ignore / replace / anything else), so it does not matter whether the rows are an if/elif ladder,
+    # guard clauses, or share code.  For each value: the part of the product graph entered through the true edge of
+    # the non-finite test, up to the next loop header.
+    from fsa.pathsens import OTHER
+    fl = sh.mode_flags
+    if 'errors' not in fl.idx:
+        raise Unsupported(f'{sh.q}: `errors` is rebound in the function; policy table not decided')
+    ei = fl.idx['errors']
+    last = Cmp('==', affine(expr(f'{sh.counter} - max_iter')))
+    lastpass_edges = []
+    for tn in sh.tests():
+        if sh.in_loop(tn):
+            from fsa.match import nnf_atoms
+            for (a_, tr) in nnf_atoms(tn.ast, True):
+                c_ = cmp_of(a_)
+                if tr and c_ is not None and c_ == last:
+                    lastpass_edges.append((tn.id, 'T'))
+    fs_status = sh.final_store('status')
 
-    def entry(m: str) -> List[int]:
-        return [b for (b, lab) in mode_tests[m].succ if lab == 'T']
-
-    def region(m: str) -> List[int]:
+    def starts(mode):
         out = []
-        for n in sh.cfg.nodes:
-            if (mode_tests[m].id, 'T') in sh.guards_of(n.id):
-                out.append(n.id)
+        for s_ in fl.states_at(nf.id):
+            if s_[ei][0] == 'c' and s_[ei][2] == mode:
+                for (q_, lab) in fl.succ[(nf.id, s_)]:
+                    if lab == 'T':
+                        out.append(q_)
         return out
 
-    # every row: the pass is never judged for convergence
-    for m, tn in mode_tests.items():
-        ok = all(must_pass(sh.cfg, b, conv.id, [sh.loop.id]) for b in entry(m))
-        R.check(ok, sh.q, f'policy:{m}:not-judged', f"errors='{m}': a pass that produced non-finite values is not judged for convergence",
-                f"errors='{m}': the convergence test is reachable in the same pass", where=sh.where(tn))
-    # raise
-    if 'raise' in mode_tests:
-        reg = region('raise')
-        st = [s for s in sh.stores if s.node.id in reg and s.owner == 'self']
-        has_e = any(s.series == 'status' and enum_value_ref(s.value) == 'ERROR' and text(s.index) == 't' for s in st)
-        has_i = any(s.series == 'iterations' and isinstance(s.value, ast.Name) and s.value.id == sh.counter and text(s.index) == 't' for s in st)
-        rs = [sh.cfg.nodes[i] for i in reg if isinstance(sh.cfg.nodes[i].ast, ast.Raise)]
-        R.check(has_e, sh.q, 'policy:raise:status', "errors='raise': status[t] = 'E'", "errors='raise' row does not store SolutionStatus.ERROR at t",
-                where=sh.where(mode_tests['raise']))
-        R.check(has_i, sh.q, 'policy:raise:iterations', "errors='raise': iterations[t] = this pass",
-                "errors='raise' row does not store the pass counter in iterations[t]", where=sh.where(mode_tests['raise']))
-        ok = bool(rs) and all(raised_class(r.ast) == 'SolutionError' for r in rs)
-        R.check(ok, sh.q, 'policy:raise:exception', "errors='raise': raises SolutionError",
-                "errors='raise' row does not raise SolutionError", where=sh.where(mode_tests['raise']))
-        # all paths from the row end in that raise
-        leaves = all(not sh.cfg.reaches(b, sh.loop.id) and not sh.cfg.reaches(b, sh.cfg.exit) for b in entry('raise'))
-        R.check(leaves, sh.q, 'policy:raise:terminal', "errors='raise': the row always ends in the exception",
-                "errors='raise' row can fall through without raising", where=sh.where(mode_tests['raise']))
-        # stores precede the raise
-        for r in rs:
-            for s in st:
-                if s.series in ('status', 'iterations'):
-                    R.check(s.node.id in sh.dom[r.id], sh.q, f'policy:raise:store-before-raise:{s.series}',
-                            f"'E' bookkeeping ({s.series}) dominates the raise", f'{s.series} store does not dominate the raise',
-                            where=sh.where(s.node))
-    # skip
-    if 'skip' in mode_tests:
-        reg = region('skip')
-        defs = [n for (n, m) in sh.status_defs() if n.id in reg]
-        ok = len(defs) >= 1 and all(enum_value_ref(d.ast.value) == 'SKIPPED' for d in defs)
-        R.check(ok, sh.q, 'policy:skip:status', "errors='skip': status 'S'", "errors='skip' row does not set SolutionStatus.SKIPPED",
-                where=sh.where(mode_tests['skip']))
-        leaves = all(not sh.cfg.reaches(b, sh.loop.id) for b in entry('skip'))
-        R.check(leaves, sh.q, 'policy:skip:leaves-loop', "errors='skip': the pass loop is left at once",
-                "errors='skip' row can return to the pass loop (keeps iterating)", where=sh.where(mode_tests['skip']))
-        noraise = all(not sh.cfg.reaches(b, sh.cfg.raise_exit, avoid=[sh.final_store('status').id]) for b in entry('skip'))
-        R.check(noraise, sh.q, 'policy:skip:no-exception', "errors='skip': no exception before the bookkeeping",
-                "errors='skip' row can raise before recording status", where=sh.where(mode_tests['skip']))
-    # ignore / replace
-    last = Cmp('==', affine(expr(f'{sh.counter} - max_iter')))
-    for m in ('ignore', 'replace'):
-        if m not in mode_tests:
+    def nodes(pn):
+        return {p_[0] for p_ in pn}
+
+    for m in ('raise', 'skip', 'ignore', 'replace', OTHER):
+        st0 = starts(m)
+        shown = m if isinstance(m, str) else '<anything else>'
+        if not st0:
+            if isinstance(m, str):
+                R.violation(sh.q, f'policy-row-missing:{m}', f"errors='{m}' never reaches the non-finite branch (rejected or diverted before it)", where=sh.where(nf))
             continue
-        reg = region(m)
-        breaks = [sh.cfg.nodes[i] for i in reg if isinstance(sh.cfg.nodes[i].ast, ast.Break)]
-        defs = [n for (n, mm) in sh.status_defs() if n.id in reg]
-        ok = all(enum_value_ref(d.ast.value) == 'FAILED' for d in defs) and len(defs) >= 1
-        R.check(ok, sh.q, f'policy:{m}:status', f"errors='{m}': only 'F' may be assigned",
-                f"errors='{m}' row assigns a status other than FAILED", where=sh.where(mode_tests[m]))
-        for b in breaks:
-            g_last = any(truth and cmp_of(a) is not None and cmp_of(a) == last for (a, truth, tn) in guard_atoms(sh, b.id))
-            R.check(g_last, sh.q, f'policy:{m}:break-only-last-pass', f"errors='{m}': the loop is left only on the last pass",
-                    f"errors='{m}' row leaves the loop on a pass that is not `{sh.counter} == max_iter`", where=sh.where(b))
-            via = all(must_pass(sh.cfg, e, b.id, [d.id for d in defs]) for e in entry(m))
-            R.check(via, sh.q, f'policy:{m}:break-sets-F', f"errors='{m}': leaving the loop sets 'F'",
-                    f"errors='{m}' row can break without setting FAILED", where=sh.where(b))
-        # otherwise: next pass
-        cont = any(sh.cfg.reaches(e, sh.loop.id) for e in entry(m))
-        R.check(cont and bool(breaks), sh.q, f'policy:{m}:continues', f"errors='{m}': keeps iterating until the last pass",
-                f"errors='{m}' row never continues to the next pass or never fails on the last", where=sh.where(mode_tests[m]))
-        noraise = all(not sh.cfg.reaches(e, sh.cfg.raise_exit, avoid=[sh.loop.id, sh.final_store('status').id]) for e in entry(m))
-        R.check(noraise, sh.q, f'policy:{m}:no-exception', f"errors='{m}': no exception from the row itself",
-                f"errors='{m}' row can raise", where=sh.where(mode_tests[m]))
-    # else: ValueError
-    ve = []
-    for r in sh.raises('ValueError'):
-        g = sh.guards_of(r.id)
-        if (nf.id, 'T') in g and all((tn.id, 'F') in g for tn in mode_tests.values()):
-            ve.append(r)
-    R.check(len(ve) == 1, sh.q, 'policy:invalid', 'an unknown errors= value raises ValueError',
-            'no `raise ValueError` reached when errors matches none of the four policies', where=sh.where(nf))
+        this_pass = fl.reach(st0, avoid_nodes=[sh.loop.id])
+        onward = fl.reach(st0)
+        N = nodes(this_pass)
+        R.check(conv.id not in N, sh.q, f'policy:{shown}:not-judged', f"errors='{shown}': a pass that produced non-finite values is not judged for convergence",
+                f"errors='{shown}': the convergence test is reachable in the same pass", where=sh.where(nf))
+        raises_here = [sh.cfg.nodes[i] for i in N if isinstance(sh.cfg.nodes[i].ast, ast.Raise)]
+        breaks = [sh.cfg.nodes[i] for i in N if isinstance(sh.cfg.nodes[i].ast, ast.Break) and sh.cfg.nodes[i].loops and sh.cfg.nodes[i].loops[-1] == sh.loop.id]
+        continues = any(q_[0] == sh.loop.id for p_ in this_pass for (q_, _l) in fl.succ.get(p_, []))
+        sdefs = [n_ for (n_, _m) in sh.status_defs() if n_.id in N]
+        if m == 'raise':
+            stores = [s_ for s_ in sh.stores if s_.node.id in N and s_.owner == 'self']
+            st_e = [s_ for s_ in stores if s_.series == 'status' and enum_value_ref(s_.value) == 'ERROR' and text(s_.index) == 't']
+            st_i = [s_ for s_ in stores if s_.series == 'iterations' and isinstance(s_.value, ast.Name) and s_.value.id == sh.counter and text(s_.index) == 't']
+            R.check(bool(st_e), sh.q, 'policy:raise:status', "errors='raise': status[t] = 'E'", "errors='raise' row does not store SolutionStatus.ERROR at t", where=sh.where(nf))
+            R.check(bool(st_i), sh.q, 'policy:raise:iterations', "errors='raise': iterations[t] = this pass",
+                    "errors='raise' row does not store the pass counter in iterations[t]", where=sh.where(nf))
+            ok = bool(raises_here) and all(raised_class(r.ast) == 'SolutionError' for r in raises_here)
+            R.check(ok, sh.q, 'policy:raise:exception', "errors='raise': raises SolutionError", "errors='raise' row does not raise SolutionError", where=sh.where(nf))
+            leaves = sh.loop.id not in nodes(onward) and sh.cfg.exit not in nodes(onward)
+            R.check(leaves, sh.q, 'policy:raise:terminal', "errors='raise': the row always ends in the exception", "errors='raise' row can fall through without raising",
+                    where=sh.where(nf))
+            for r in raises_here:
+                for nm, sts in (('status', st_e), ('iterations', st_i)):
+                    if sts:
+                        before = r.id not in nodes(fl.reach(st0, avoid_nodes=[s_.node.id for s_ in sts]))
+                        R.check(before, sh.q, f'policy:raise:store-before-raise:{nm}', f"'E' bookkeeping ({nm}) precedes the raise on every path",
+                                f'the raise can be reached without the {nm} store', where=sh.where(r))
+        elif m == 'skip':
+            ok = len(sdefs) >= 1 and all(enum_value_ref(d.ast.value) == 'SKIPPED' for d in sdefs)
+            R.check(ok, sh.q, 'policy:skip:status', "errors='skip': status 'S'", "errors='skip' row does not set SolutionStatus.SKIPPED", where=sh.where(nf))
+            R.check(not continues and sh.loop.id not in nodes(onward), sh.q, 'policy:skip:leaves-loop', "errors='skip': the pass loop is left at once",
+                    "errors='skip' row can return to the pass loop (keeps iterating)", where=sh.where(nf))
+            noraise = sh.cfg.raise_exit not in nodes(fl.reach(st0, avoid_nodes=[fs_status.id]))
+            R.check(noraise, sh.q, 'policy:skip:no-exception', "errors='skip': no exception before the bookkeeping", "errors='skip' row can raise before recording status",
+                    where=sh.where(nf))
+        elif m in ('ignore', 'replace'):
+            ok = all(enum_value_ref(d.ast.value) == 'FAILED' for d in sdefs) and len(sdefs) >= 1
+            R.check(ok, sh.q, f'policy:{m}:status', f"errors='{m}': only 'F' may be assigned", f"errors='{m}' row assigns a status other than FAILED", where=sh.where(nf))
+            for b_ in breaks:
+                only_last = b_.id not in nodes(fl.reach(st0, avoid_nodes=[sh.loop.id], skip_edges=lastpass_edges))
+                R.check(only_last and bool(lastpass_edges), sh.q, f'policy:{m}:break-only-last-pass', f"errors='{m}': the loop is left only on the last pass",
+                        f"errors='{m}' row leaves the loop on a pass that is not `{sh.counter} == max_iter`", where=sh.where(b_))
+                via = b_.id not in nodes(fl.reach(st0, avoid_nodes=[sh.loop.id] + [d.id for d in sdefs]))
+                R.check(via, sh.q, f'policy:{m}:break-sets-F', f"errors='{m}': leaving the loop sets 'F'", f"errors='{m}' row can break without setting FAILED", where=sh.where(b_))
+            R.check(continues and bool(breaks), sh.q, f'policy:{m}:continues', f"errors='{m}': keeps iterating until the last pass",
+                    f"errors='{m}' row never continues to the next pass or never fails on the last", where=sh.where(nf))
+            # what happens to the non-finite values: 'ignore' leaves them, 'replace' zeroes exactly them before the next pass
+            cur_stores = []
+            for i in N:
+                a_ = sh.cfg.nodes[i].ast
+                if sh.cfg.nodes[i].kind == 'stmt' and isinstance(a_, (ast.Assign, ast.AugAssign)):
+                    for t_ in (a_.targets if isinstance(a_, ast.Assign) else [a_.target]):
+                        if isinstance(t_, ast.Subscript) and isinstance(t_.value, ast.Name) and t_.value.id == cur:
+                            cur_stores.append(sh.cfg.nodes[i])
+                        if isinstance(t_, ast.Name) and t_.id == cur:
+                            cur_stores.append(sh.cfg.nodes[i])
+            if m == 'ignore':
+                R.check(not cur_stores, sh.q, 'policy:ignore:values-untouched', "errors='ignore': the non-finite values are left as they are",
+                        f"errors='ignore' row rewrites the pass values (`{cur_stores[0].label()[:60] if cur_stores else ''}`): 'ignore' would behave like 'replace'",
+                        where=sh.where(cur_stores[0]) if cur_stores else sh.where(nf))
+            else:
+                zero = [n_ for n_ in cur_stores if isinstance(n_.ast, ast.Assign) and isinstance(n_.ast.targets[0], ast.Subscript)
+                        and text(sh.expand(n_.id, n_.ast.targets[0].slice, stop=(cur, prev))) in (f'~np.isfinite({cur})', f'np.logical_not(np.isfinite({cur}))', f'~numpy.isfinite({cur})')
+                        and isinstance(n_.ast.value, ast.Constant) and n_.ast.value.value == 0 and not isinstance(n_.ast.value.value, bool)]
+                other = [n_ for n_ in cur_stores if n_ not in zero]
+                R.check(bool(zero) and not other, sh.q, 'policy:replace:zero-fill', "errors='replace': exactly the non-finite values are replaced by zero",
+                        f"errors='replace' row does not store 0 into `{cur}[~np.isfinite({cur})]`" + (f" (`{other[0].label()[:50]}`)" if other else ''), where=sh.where(nf))
+                if zero:
+                    skipped = sh.loop.id in nodes(fl.reach(st0, avoid_nodes=[z.id for z in zero]))
+                    R.check(not skipped, sh.q, 'policy:replace:zero-fill-before-next-pass', "errors='replace': the replacement happens before every further pass",
+                            "errors='replace' row can go on to the next pass without replacing the non-finite values", where=sh.where(zero[0]))
+            noraise = sh.cfg.raise_exit not in nodes(fl.reach(st0, avoid_nodes=[sh.loop.id, fs_status.id]))
+            R.check(noraise, sh.q, f'policy:{m}:no-exception', f"errors='{m}': no exception from the row itself", f"errors='{m}' row can raise", where=sh.where(nf))
+        else:
+            ve = [r for r in raises_here if raised_class(r.ast) == 'ValueError']
+            ok = bool(ve) and len(ve) == len(raises_here) and sh.loop.id not in nodes(onward) and sh.cfg.exit not in nodes(onward)
+            R.check(ok, sh.q, 'policy:invalid', 'an unknown errors= value raises ValueError',
+                    'no `raise ValueError` reached when errors matches none of the four policies', where=sh.where(nf))
 
 
 def r3_previous_nonfinite(R, sh: SolverShape) -> None:
     cur, prev = value_roles(sh)
-    nfp = [n for n in sh.tests() if sh.in_loop(n) and nonfinite_test(n.ast) == prev]
-    nfc = [n for n in sh.tests() if sh.in_loop(n) and nonfinite_test(n.ast) == cur]
+    nfp = [n for n in sh.tests() if sh.in_loop(n) and nonfinite_test(sh.expand(n.id, n.ast, stop=(cur, prev))) == prev]
+    nfc = [n for n in sh.tests() if sh.in_loop(n) and nonfinite_test(sh.expand(n.id, n.ast, stop=(cur, prev))) == cur]
     if not R.require(sh.q, len(nfp), f'non-finite test of `{prev}` (previous pass)', fi=sh.fi, pred=pred_call_attr('isfinite')) \
             or not R.require(sh.q, len(nfc), f'non-finite test of `{cur}` (current pass)', fi=sh.fi, pred=pred_call_attr('isfinite')):
         return
@@ -369,7 +384,12 @@ def r5_preexisting(R, sh: SolverShape) -> None:
 
 
 def r6_filters(R, sh: SolverShape) -> None:
+    """The warnings filter in force around each user-code call, as a gated value: `warnings.simplefilter(x)` is read as
+    an assignment to a pseudo-variable that `with warnings.catch_warnings()` resets on entry."""
+    from fsa.gated import SymExec, canon
+    from fsa.match import nnf_atoms
     par = _parents(sh.fi.node)
+    se = SymExec(sh.fi.node, effect_vars={'warnings.simplefilter': '__filter__'}, with_resets={'warnings.catch_warnings': ['__filter__']})
     n_blocks = 0
     for m in ('solve_t_before', sh.eval_call, 'solve_t_after'):
         for n in sh.calls_self(m):
@@ -379,30 +399,31 @@ def r6_filters(R, sh: SolverShape) -> None:
                 R.violation(sh.q, f'filter-block:{m}', f'self.{m}() is not inside a `warnings.catch_warnings()` block', where=sh.where(n))
                 continue
             n_blocks += 1
-            # the filter selection inside this with-block, before the call
-            sel = None
-            for stmt in w.body:
-                if isinstance(stmt, ast.If):
-                    sel = stmt
-                    break
-                if isinstance(stmt, ast.Expr) and is_call(stmt.value, 'warnings.simplefilter'):
-                    sel = stmt
-                    break
-                if isinstance(stmt, ast.Expr) and isinstance(stmt.value, ast.Call) and isinstance(stmt.value.func, ast.Name) \
-                        and any(isinstance(x, ast.FunctionDef) and x.name == stmt.value.func.id and x is not sh.fi.node for x in ast.walk(sh.fi.node)):
-                    sel = stmt
-                    break
-                if any(c is call for c in ast.walk(stmt)):
-                    break
-            if isinstance(sel, ast.Expr) and isinstance(sel.value, ast.Call) and isinstance(sel.value.func, ast.Name) and not sel.value.args and not sel.value.keywords:
-                # selection extracted into a local helper: analyse its body
-                helper = [x for x in ast.walk(sh.fi.node) if isinstance(x, ast.FunctionDef) and x.name == sel.value.func.id and x is not sh.fi.node]
-                if len(helper) == 1:
-                    body = [s_ for s_ in helper[0].body if not (isinstance(s_, ast.Expr) and isinstance(s_.value, ast.Constant))]
-                    sel = body[0] if len(body) == 1 else None
-            verdict = _filter_selection(sel)
+            st = None
+            for s_ in ast.walk(sh.fi.node):
+                if isinstance(s_, ast.stmt) and id(s_) in se.before and any(x is call for x in ast.walk(s_)):
+                    if st is None or any(x is s_ for x in ast.walk(st)):
+                        st = s_
+            if st is None:
+                raise Unsupported(f'{sh.q}: self.{m}() not visited by the symbolic evaluator')
+            v = canon(se.value(st, ast.Name(id='__filter__', ctx=ast.Load())))
+            verdict = None
+            if isinstance(v, ast.Name) and v.id in ('<inherited>', '__filter__'):
+                verdict = 'no filter is selected inside the catch_warnings() block before the call'
+            elif isinstance(v, ast.Constant):
+                verdict = f'filter is unconditionally {v.value!r}'
+            elif isinstance(v, ast.IfExp) and isinstance(v.body, ast.Constant) and isinstance(v.orelse, ast.Constant):
+                atoms = nnf_atoms(v.test, True)
+                okc = len(atoms) == 2 and any(tr and str_eq_test(a_) == ('errors', 'raise', True) for (a_, tr) in atoms) \
+                    and any(tr and isinstance(a_, ast.Name) and a_.id == 'catch_first_error' for (a_, tr) in atoms)
+                if not okc:
+                    verdict = f"selection condition is `{text(v.test)}`, expected `errors == 'raise' and catch_first_error`"
+                elif (v.body.value, v.orelse.value) != ('error', 'always'):
+                    verdict = f"filters are ({v.body.value!r} if cond else {v.orelse.value!r}), expected ('error' if cond else 'always')"
+                else:
+                    verdict = 'ok'
             if verdict is None:
-                raise Unsupported(f'{sh.q}: filter selection around self.{m}() not in the idiom table')
+                raise Unsupported(f'{sh.q}: filter in force around self.{m}() is `{text(v)[:80]}`: not in the idiom table')
             R.check(verdict == 'ok', sh.q, f'filter-select:{m}',
                     f"around self.{m}(): 'error' exactly under errors == 'raise' and catch_first_error, else 'always'",
                     f'warnings filter around self.{m}(): {verdict}', where=sh.where(n))
